@@ -23,7 +23,7 @@ G_PARENT_TYPE = uuid.UUID("B04AEFB7-D19E-4A81-B789-25B8E9445913")
 
 ST_NOT_PRESENT, ST_UNDEFINED, ST_ZERO, ST_UNMAPPED, ST_FULL, ST_PARTIAL = 0, 1, 2, 3, 6, 7
 
-CAPS = {"zero_units": True, "compress": False, "dealloc": True, "keep_alloc": False}
+CAPS = {"zero_units": True, "compress": False, "dealloc": True, "keep_alloc": True}
 
 _T = []
 for _i in range(256):
@@ -147,14 +147,32 @@ def parent_locator(entries: list[tuple[str, str]], loc_type: uuid.UUID = G_PAREN
     items = []
     for k, v in entries:
         items.append((k.encode("utf-16-le"), v.encode("utf-16-le")))
-    order = list(range(n))
-    random.Random(order_seed).shuffle(order)
-    offs = {}
-    for i in order:
-        kb, vb = items[i]
-        offs[i] = (pos, pos + len(kb))
-        blobs.append(kb + vb)
-        pos += len(kb) + len(vb)
+    # The key and value strings may be laid out in any order after the entry table: key-then-value per entry, value-then-key,
+    # all keys then all values, all values then all keys, or fully shuffled.
+    r = random.Random(order_seed)
+    layout = r.choice(["kv", "vk", "keys_values", "values_keys", "shuffled"])
+    pieces = []
+    for i in range(n):
+        if layout == "vk":
+            pieces += [("v", i), ("k", i)]
+        else:
+            pieces += [("k", i), ("v", i)]
+    if layout == "keys_values":
+        pieces = [p for p in pieces if p[0] == "k"] + [p for p in pieces if p[0] == "v"]
+    elif layout == "values_keys":
+        pieces = [p for p in pieces if p[0] == "v"] + [p for p in pieces if p[0] == "k"]
+    elif layout == "shuffled":
+        r.shuffle(pieces)
+    koff, voff = {}, {}
+    for kind, i in pieces:
+        b = items[i][0] if kind == "k" else items[i][1]
+        (koff if kind == "k" else voff)[i] = pos
+        blobs.append(b)
+        pos += len(b)
+        if r.random() < 0.2:
+            blobs.append(b"\0\0")
+            pos += 2
+    offs = {i: (koff[i], voff[i]) for i in range(n)}
     for i in range(n):
         kb, vb = items[i]
         ent += struct.pack("<IIHH", offs[i][0], offs[i][1], len(kb), len(vb))
@@ -268,12 +286,17 @@ def render(cfg: dict, layer: Layer, view: View, parent_entries: list[tuple[str, 
     # -- BAT + payload -----------------------------------------------------------------------------------
     need = []
     states = {}
+    stale_own = set()
     default_state = ST_FULL if cfg["fixed"] else (ST_NOT_PRESENT if diff else cfg["unalloc_state"])
     for u in (range(nblocks) if cfg["fixed"] else sorted(set(layer.touch) | set(layer.flags))):
         a, b = layer.urange(u)
         st = layer.ustate(u)
         if cfg["fixed"]:
             states[u] = ST_FULL
+        elif st == "zalloc":
+            # trimmed / zeroed block that keeps its old file offset (stale data there must never be served)
+            states[u] = ST_ZERO if (cfg["alloc_seed"] + u) % 2 else (ST_ZERO if diff else ST_UNMAPPED)
+            stale_own.add(u)
         elif st == "zero":
             states[u] = ST_ZERO
         elif st == "unalloc":
@@ -282,7 +305,7 @@ def render(cfg: dict, layer: Layer, view: View, parent_entries: list[tuple[str, 
             states[u] = ST_PARTIAL
         else:
             states[u] = ST_FULL
-    touched = [u for u in layer.touch if states.get(u) in (ST_FULL, ST_PARTIAL)]
+    touched = [u for u in layer.touch if states.get(u) in (ST_FULL, ST_PARTIAL) or u in stale_own]
     tset = set(touched)
     rest = [u for u in range(nblocks) if u not in tset] if cfg["fixed"] else []
     need = touched + rest
@@ -312,7 +335,7 @@ def render(cfg: dict, layer: Layer, view: View, parent_entries: list[tuple[str, 
     for u in states:
         e = u + u // ratio
         st = states[u]
-        if st in (ST_FULL, ST_PARTIAL):
+        if st in (ST_FULL, ST_PARTIAL) or u in stale_own:
             bat[e] = st | ((posn[("pb", u)] // MB) << 20)
         elif st in (ST_UNDEFINED, ST_ZERO, ST_UNMAPPED) and stale:
             bat[e] = st | (stale << 20)  # stale offset: must not be followed
@@ -332,7 +355,9 @@ def render(cfg: dict, layer: Layer, view: View, parent_entries: list[tuple[str, 
     for u in need:
         a, b = layer.urange(u)
         p = posn[("pb", u)]
-        if states[u] == ST_FULL:
+        if u in stale_own:
+            put_poison(f, p, bs, 0x7A1E)
+        elif states[u] == ST_FULL:
             put_view(f, p, view, a, b)
             if b - a < spb512:
                 put_poison(f, p + (b - a) * 512, (spb512 - (b - a)) * 512, 0xB10C)
